@@ -320,6 +320,37 @@ fn run_builder(which: u8, out: &mut Vec<Violation>) {
             sqe
         }};
     }
+    // The second submission of a composite operation whose first attempt was cut short after one byte.
+    macro_rules! second_sqe_of {
+        ($fut:expr) => {{
+            let mut fut = Box::pin($fut);
+            let wk = HWaker::new(9);
+            let mut cx = Context::from_waker(&wk.waker);
+            let p = talloc::track(|| fut.as_mut().poll(&mut cx));
+            assert!(p.is_pending());
+            talloc::track(|| {
+                let _ = w.ring.poll(Some(Duration::ZERO));
+            });
+            let s = simk::with(|k| *k.inflight().last().unwrap());
+            simk::with(|k| k.complete(s, Out::Res(1)));
+            if simk::with(|k| k.req(s).awaiting_notif) {
+                simk::with(|k| k.complete(s, Out::Notif));
+            }
+            talloc::track(|| {
+                let _ = w.ring.poll(Some(Duration::ZERO));
+            });
+            let tail = simk::with(|k| k.rings[0].sq_tail());
+            let p = talloc::track(|| fut.as_mut().poll(&mut cx));
+            let sqe = if p.is_pending() && simk::with(|k| k.rings[0].sq_tail()) != tail { Some(simk::with(|k| unsafe { *k.rings[0].sqe_slot(tail) })) } else { None };
+            talloc::track(|| {
+                let _ = w.ring.poll(Some(Duration::ZERO));
+            });
+            finish_all(&mut w);
+            let _ = talloc::track(|| fut.as_mut().poll(&mut cx));
+            talloc::track(|| drop(fut));
+            sqe
+        }};
+    }
     let mut check = |name: &str, ok: bool, sqe: &Sqe| {
         if !ok {
             out.push(v(&format!("builder-ignored/{name}"), format!("{name}: the setting made before the first poll is not reflected in the submission: {}", sqe.describe())));
@@ -341,6 +372,17 @@ fn run_builder(which: u8, out: &mut Vec<Violation>) {
                 check("WriteAll::at", s.opcode() == OP_WRITE && s.off() == o, &s);
                 let s = sqe_of!(fd.read_n(Vec::with_capacity(4), 2).from(o));
                 check("ReadN::from", s.opcode() == OP_READ && s.off() == o, &s);
+                // Continuations go on where the first attempt stopped.
+                let next = o.wrapping_add(1);
+                let none = Sqe([0; 64]);
+                let s = second_sqe_of!(fd.write_all(vec![1u8; 3]).at(o));
+                check("WriteAll::at/continuation", s.is_some_and(|s| s.opcode() == OP_WRITE && s.off() == next && s.len() == 2), &s.unwrap_or(none));
+                let s = second_sqe_of!(fd.write_all_vectored([vec![1u8; 2], vec![2u8; 2]]).at(o));
+                check("WriteAllVectored::at/continuation", s.is_some_and(|s| s.opcode() == OP_WRITEV && s.off() == next), &s.unwrap_or(none));
+                let s = second_sqe_of!(fd.read_n(Vec::with_capacity(4), 3).from(o));
+                check("ReadN::from/continuation", s.is_some_and(|s| s.opcode() == OP_READ && s.off() == next && s.len() == 3), &s.unwrap_or(none));
+                let s = second_sqe_of!(fd.read_n_vectored([Vec::with_capacity(2), Vec::with_capacity(2)], 3).from(o));
+                check("ReadNVectored::from/continuation", s.is_some_and(|s| s.opcode() == OP_READV && s.off() == next), &s.unwrap_or(none));
             }
         }
         1 => {
@@ -354,6 +396,15 @@ fn run_builder(which: u8, out: &mut Vec<Violation>) {
                 check("SendMsg::flags", s.opcode() == OP_SENDMSG && s.op_flags() == bits as u32, &s);
                 let s = sqe_of!(fd.send_all(vec![1u8; 3]).flags(f).zc());
                 check("SendAll::flags+zc", s.opcode() == OP_SEND_ZC && s.op_flags() == bits as u32, &s);
+                let none = Sqe([0; 64]);
+                let s = second_sqe_of!(fd.send_all(vec![1u8; 3]).flags(f));
+                check("SendAll::flags/continuation", s.is_some_and(|s| s.opcode() == OP_SEND && s.op_flags() == bits as u32 && s.len() == 2), &s.unwrap_or(none));
+                let s = second_sqe_of!(fd.send_all(vec![1u8; 3]).flags(f).zc());
+                check("SendAll::flags+zc/continuation", s.is_some_and(|s| s.opcode() == OP_SEND_ZC && s.op_flags() == bits as u32), &s.unwrap_or(none));
+                let s = second_sqe_of!(fd.send_all_vectored([vec![1u8; 2], vec![2u8; 2]]).flags(f));
+                check("SendAllVectored::flags/continuation", s.is_some_and(|s| s.opcode() == OP_SENDMSG && s.op_flags() == bits as u32), &s.unwrap_or(none));
+                let s = second_sqe_of!(fd.send_all_vectored([vec![1u8; 2], vec![2u8; 2]]).flags(f).zc());
+                check("SendAllVectored::flags+zc/continuation", s.is_some_and(|s| s.opcode() == OP_SENDMSG_ZC && s.op_flags() == bits as u32), &s.unwrap_or(none));
             }
             for (f, bits) in [(RecvFlag::PEEK, libc::MSG_PEEK), (RecvFlag::WAIT_ALL, libc::MSG_WAITALL), (RecvFlag::OOB, libc::MSG_OOB)] {
                 let s = sqe_of!(fd.recv(Vec::with_capacity(4)).flags(f));
@@ -362,6 +413,15 @@ fn run_builder(which: u8, out: &mut Vec<Violation>) {
                 check("RecvVectored::flags", s.opcode() == OP_RECVMSG && s.op_flags() == bits as u32, &s);
                 let s = sqe_of!(fd.recv_n(Vec::with_capacity(4), 2).flags(f));
                 check("RecvN::flags", s.opcode() == OP_RECV && s.op_flags() == bits as u32, &s);
+                let s = sqe_of!(fd.recv_n_vectored([Vec::with_capacity(2), Vec::with_capacity(2)], 3).flags(f));
+                check("RecvNVectored::flags", s.opcode() == OP_RECVMSG && s.op_flags() == bits as u32, &s);
+                let s = sqe_of!(fd.recv_from::<_, std::net::SocketAddr>(Vec::with_capacity(4)).flags(f));
+                check("RecvFrom::flags", s.opcode() == OP_RECVMSG && s.op_flags() == bits as u32, &s);
+                let none = Sqe([0; 64]);
+                let s = second_sqe_of!(fd.recv_n(Vec::with_capacity(4), 3).flags(f));
+                check("RecvN::flags/continuation", s.is_some_and(|s| s.opcode() == OP_RECV && s.op_flags() == bits as u32 && s.len() == 3), &s.unwrap_or(none));
+                let s = second_sqe_of!(fd.recv_n_vectored([Vec::with_capacity(2), Vec::with_capacity(2)], 3).flags(f));
+                check("RecvNVectored::flags/continuation", s.is_some_and(|s| s.opcode() == OP_RECVMSG && s.op_flags() == bits as u32), &s.unwrap_or(none));
             }
         }
         2 => {
@@ -542,7 +602,7 @@ fn run_real(id: u16, direct: bool, out: &mut Vec<Violation>) {
     }
 }
 
-pub const N_REAL: u16 = 20;
+pub const N_REAL: u16 = 21;
 
 /// A socket name through a10; `None` when the kernel has no way to answer for
 /// a direct descriptor (EOPNOTSUPP), which is not judged. Any other failure is.
@@ -1452,6 +1512,73 @@ fn run_real_inner(id: u16, direct: bool) -> Vec<Violation> {
                     libc::munmap(a.cast(), 8192);
                     libc::munmap(b.cast(), 8192);
                 }
+            }
+        }
+        // Limited buffers: the kernel must see exactly what the same call on the truncated buffers sees.
+        19 => {
+            use a10::io::{Buf, BufMut, BufMutSlice, BufSlice};
+            let parts: [&[u8]; 3] = [b"Hello", b" world", b"!!!"];
+            let total: usize = parts.iter().map(|p| p.len()).sum();
+            for limit in [0usize, 1, 3, 5, 6, 8, 11, 12, 14, 100] {
+                // write_vectored(bufs.limit(n)) vs writev of the truncated iovecs.
+                let pa = fx.file("la", b"");
+                let pb = fx.file("lb", b"");
+                let raw = open_raw(&pa, libc::O_RDWR);
+                let afd = unsafe { AsyncFd::from_raw_fd(raw, sq.clone()) };
+                let dfd = target(&mut ring, &afd, direct);
+                let t = dfd.as_ref().unwrap_or(&afd);
+                let bufs = [parts[0].to_vec(), parts[1].to_vec(), parts[2].to_vec()];
+                let got = block_on(&mut ring, t.write_vectored(BufSlice::limit(bufs, limit)));
+                let lfd = open_raw(&pb, libc::O_RDWR);
+                let mut left = limit;
+                let iov: Vec<libc::iovec> = parts
+                    .iter()
+                    .map(|p| {
+                        let n = p.len().min(left);
+                        left -= n;
+                        libc::iovec { iov_base: p.as_ptr().cast_mut().cast(), iov_len: n }
+                    })
+                    .collect();
+                let want = unsafe { libc::writev(lfd, iov.as_ptr(), 3) };
+                let (fa, fb) = (std::fs::read(&pa).unwrap(), std::fs::read(&pb).unwrap());
+                if got.as_ref().ok().map(|n| *n as isize) != Some(want) || fa != fb {
+                    out.push(v(&format!("real/limited-write_vectored/{kind}"), format!("limit {limit}: a10 {got:?} wrote {:?}; writev(2) {want} wrote {:?}", String::from_utf8_lossy(&fa), String::from_utf8_lossy(&fb))));
+                }
+                // write(buf.limit(n)).
+                let all: Vec<u8> = parts.concat();
+                let got = block_on(&mut ring, t.write(Buf::limit(all.clone(), limit)).at(100));
+                let want = unsafe { libc::pwrite(lfd, all.as_ptr().cast(), limit.min(total), 100) };
+                let (fa, fb) = (std::fs::read(&pa).unwrap(), std::fs::read(&pb).unwrap());
+                if got.as_ref().ok().map(|n| *n as isize) != Some(want) || fa != fb {
+                    out.push(v(&format!("real/limited-write/{kind}"), format!("limit {limit}: a10 {got:?}, pwrite(2) {want}; files equal: {}", fa == fb)));
+                }
+                unsafe { libc::close(lfd) };
+                drop(dfd);
+                drop(afd);
+                ring.poll(Some(Duration::ZERO)).unwrap();
+                // read(buf.limit(n)) and read_vectored(bufs.limit(n)) from a 40-byte file.
+                let data = content(40);
+                let pr = fx.file("lr", &data);
+                let raw = open_raw(&pr, libc::O_RDONLY);
+                let afd = unsafe { AsyncFd::from_raw_fd(raw, sq.clone()) };
+                let dfd = target(&mut ring, &afd, direct);
+                let t = dfd.as_ref().unwrap_or(&afd);
+                let got = block_on(&mut ring, t.read(BufMut::limit(Vec::with_capacity(16), limit)).from(2)).map(|b| b.into_inner());
+                let want = &data[2..2 + limit.min(16)];
+                if got.as_ref().ok().map(|b| &b[..]) != Some(want) {
+                    out.push(v(&format!("real/limited-read/{kind}"), format!("limit {limit} on a 16-byte buffer: a10 returns {:?}, pread(2) of {} bytes returns {} bytes", got.as_ref().map(|b| b.len()), limit.min(16), want.len())));
+                }
+                let got = block_on(&mut ring, t.read_vectored(BufMutSlice::limit([Vec::with_capacity(4), Vec::with_capacity(4), Vec::with_capacity(4)], limit)).from(3)).map(|b| b.into_inner());
+                let n = limit.min(12);
+                let want = &data[3..3 + n];
+                let flat = got.as_ref().ok().map(|b| b.concat());
+                let shape_ok = got.as_ref().is_ok_and(|b| b[0].len() == n.min(4) && b[1].len() == n.saturating_sub(4).min(4) && b[2].len() == n.saturating_sub(8).min(4));
+                if flat.as_deref() != Some(want) || !shape_ok {
+                    out.push(v(&format!("real/limited-read_vectored/{kind}"), format!("limit {limit} on three 4-byte buffers: a10 returns {:?}, preadv(2) of the truncated buffers returns {} bytes", got.as_ref().map(|b| b.iter().map(|x| x.len()).collect::<Vec<_>>()), want.len())));
+                }
+                drop(dfd);
+                drop(afd);
+                ring.poll(Some(Duration::ZERO)).unwrap();
             }
         }
         // Descriptor conversions and close.
